@@ -195,7 +195,7 @@ def run(rep: Report, tier: str) -> None:
         raise AnalysisError("no ezodf.opendoc call found")
 
     # ---------------------------------------------------------------- C18.d
-    rd = rep.rule("C18.d", "who-may-write table: filesystem-mutating call sites are exactly the tabled ones with the tabled path arguments", floor=6, definite=True)
+    rd = rep.rule("C18.d", "who-may-write table: filesystem-mutating call sites are exactly the tabled ones with the tabled path arguments", floor=6)
     table = {
         ("rp2.logger", "<module>", "mkdir"): lambda n: isinstance(n.func.value, ast.Call) and unparse(n.func.value.func) == "Path" and len(n.func.value.args) == 1 and _folds_to(prog, "rp2.logger", n.func.value.args[0]) == "./log",
         ("rp2.logger", "create_logger", "FileHandler"): lambda n: [unparse(a) for a in n.args] == ["LOG_FILE"] and _log_file_under_log(prog),
@@ -205,6 +205,7 @@ def run(rep: Report, tier: str) -> None:
         ("rp2.rp2_configuration_translator", "*", "open"): lambda n: True,
     }
     seen = set()
+    untabled = []
     for mod in mods.values():
         for node in ast.walk(mod.tree):
             if not isinstance(node, ast.Call):
@@ -226,10 +227,17 @@ def run(rep: Report, tier: str) -> None:
             key = (mod.name, q, kind)
             pred = table.get(key)
             if pred is None:
-                rep.violation(rd, mod.name, q, f"{kind} in {mod.name}:{q}", f"{short(node, 100)} creates or modifies a file/directory and is not in the who-may-write table: RP2 may only write reports into the output directory and logs under ./log", loc(node))
+                untabled.append((mod, q, kind, node))
                 continue
             seen.add(key)
             rep.check(bool(pred(node)), rd, mod.name, q, f"{kind} in {mod.name}:{q} targets the tabled location", f"{short(node, 120)}: the path argument is no longer the tabled one (log directory / output directory / <output_dir>/<prefix><method>_<name>)", loc(node))
+    vanished = {k[2] for k in table if k[1] != "*" and k not in seen}
+    for mod, q, kind, node in untabled:
+        if kind in vanished:
+            # the tabled writer of this kind is gone and an untabled one of the same kind appeared elsewhere: moved (extracted helper, renamed function) or new - not decidable here
+            rep.defer_error(f"{loc(node)}: {short(node, 80)} ({kind}) is not a tabled writer while the tabled '{kind}' site is gone: a moved or a new write, not decided for this shape")
+            continue
+        rep.violation(rd, mod.name, q, f"{kind} in {mod.name}:{q}", f"{short(node, 100)} creates or modifies a file/directory and is not in the who-may-write table: RP2 may only write reports into the output directory and logs under ./log", loc(node), definite=True)
     for key in table:
         if key[1] != "*" and key not in seen:
             rep.note(f"tabled writer {key} not found any more (table entry is stale, harmless)")
